@@ -230,11 +230,18 @@ def _f(x):
 
 
 def record_client(sc):
-    """Random call sequences on a real client object (native / multiprocessing); ClientContract_Trace judges them."""
+    """Random call sequences on a real client object (native / multiprocessing / dask local cluster); ClientContract_Trace judges them."""
     import elfi.clients.multiprocessing as mp
     import elfi.clients.native as native
     rnd = random.Random(sc["seed"])
-    cl = native.Client() if sc["client"] == "native" else mp.Client(num_processes=2)
+    if sc["client"] == "dask":
+        import elfi.client as ec
+        keep = (ec._client, ec._default_class)
+        import elfi.clients.dask as dk        # importing it makes dask the default client: undo that
+        ec._client, ec._default_class = keep
+        cl = dk.Client()
+    else:
+        cl = native.Client() if sc["client"] == "native" else mp.Client(num_processes=2)
     events, held = [], []
     try:
         for _ in range(sc["n"]):
@@ -316,6 +323,12 @@ CHECK_DEADLOCK FALSE
     rnd = random.Random(ctx.seed + 9)
     scs = [dict(client="native", seed=rnd.randint(0, 10 ** 6), n=rnd.randint(5, 25)) for _ in range(40 if ctx.quick else 400)]
     scs += [dict(client="multiprocessing", seed=rnd.randint(0, 10 ** 6), n=rnd.randint(5, 20)) for _ in range(3 if ctx.quick else 20)]
+    if not ctx.quick:
+        try:
+            import dask.distributed  # noqa: F401
+            scs += [dict(client="dask", seed=rnd.randint(0, 10 ** 6), n=rnd.randint(10, 25)) for _ in range(2)]
+        except ImportError:
+            pass
     traces = [record_client(sc) for sc in scs]
     verdicts = ctx.validate("ClientContract_Trace", traces, chunk=200, name="clients")
     for sc, tr, v in zip(scs, traces, verdicts):
@@ -333,7 +346,7 @@ def run(ctx):
                 "sampler wait on an unready batch or cancel a speculative batch.")
     ctx.clauses_decided = ["a: same result as the sequential run (digest of outputs, thresholds, n_sim, weights)",
                            "b: in index order, each once", "c: bounded outstanding", "d: cancelled never used", "e: no task left"]
-    ctx.clauses_not_decided = ["dask / ipyparallel clients (not installed as running clusters)"]
+    ctx.clauses_not_decided = ["sampler runs on the dask / ipyparallel clients (dask: client contract only, thorough tier; ipyparallel: no cluster in the sandbox)"]
     if ctx.quick:
         runs = [(2, 1, False, 4), (2, 2, True, 2)]
     else:
